@@ -1064,6 +1064,37 @@ pub fn mutating_workloads() -> Vec<(String, usize, Vec<WStep>)> {
 /// Generated mutating workloads: a prefix that fixes the starting state of stream /a (empty, a
 /// flushed mini stream, a flushed regular stream), then EVERY sequence of `depth` steps over a
 /// step alphabet on that handle and on a second small stream, then flushes of everything.
+/// Workloads whose caller does not retry a failed call at once but comes back to it later, after other
+/// streams have allocated (run with `no_retry`).
+pub fn late_retry_workloads() -> Vec<(String, usize, Vec<WStep>)> {
+    let mut v = Vec::new();
+    for (label, size, other) in [("regular", 9000usize, 4200usize), ("mini", 3000, 1000), ("regular, small other", 9000, 300)] {
+        v.push((
+            format!("{} stream emptied (fails), other stream allocates and flushes, emptied again", label),
+            1 << 20,
+            vec![
+                WStep::Create,
+                WStep::CreateStream(0, "/a".into()),
+                WStep::Write(0, size),
+                WStep::Flush(0),
+                WStep::SetLen(0, 0),
+                WStep::CreateStream(1, "/b".into()),
+                WStep::Write(1, other),
+                WStep::Flush(1),
+                WStep::SetLen(0, 0),
+                WStep::Flush(0),
+                WStep::Flush(1),
+                WStep::Write(1, 10),
+                WStep::Flush(1),
+                WStep::DropHandle(0),
+                WStep::DropHandle(1),
+                WStep::CompFlush,
+            ],
+        ));
+    }
+    v
+}
+
 /// Workloads on a large V3 file: the write-back that needs the 110th FAT sector (the first one listed
 /// in a DIFAT sector, at 109 x 128 sectors = 7.14 MB) and the one that needs the 237th (second DIFAT
 /// sector).  Faults are injected only in the steps after the common prefix (last tuple field).
